@@ -1,4 +1,5 @@
 """C07 — try / catch / throw follow block structure (engine exn)."""
+import re
 from ..runner import Spec, Case
 from .. import core
 
@@ -33,7 +34,8 @@ def gen_prog(rng, depth, size, in_handler=False):
     """random program tree; returns sexp. Inside the object domain: no throw(NULL), no malformed message."""
     if size <= 1 or depth <= 0:
         r = rng.random()
-        if r < 0.40: return f'(t {rng.randrange(NK)})'
+        if r < 0.34: return f'(t {rng.randrange(NK)})'
+        if r < 0.40: return f'(g {rng.randrange(4)})'                # a library function raises (KeyError from get, ValueError from rem)
         if r < (0.60 if in_handler else 0.44): return '(r)'          # rethrow of the bound object
         return f'(s {rng.randrange(100)})'
     r = rng.random()
@@ -98,6 +100,81 @@ def nested(depth, kind, filt_inner, filt_outer):
         p = f'(c (f (q (s {d}) {p})) ({f}) (s {1000 + d}))'
     return p
 
+
+# ---- exception objects that are not Types (harness kinds 100 + j): Strings "A","B","A","TypeError", Ints 5,7,5 ----------
+NX = 7
+STR_KINDS = [100, 101, 102, 103]; INT_KINDS = [104, 105, 106]; TYPE_KINDS = list(range(NK))
+_CLS = ['T'] * 7 + ['S'] * 4 + ['I'] * 3
+_VAL = ['TypeError', 'ValueError', 'KeyError', 'IOError', 'FormatError', 'BusyError', 'ClassError', 'A', 'B', 'A', 'TypeError', 5, 7, 5]
+def _canon(k): return 7 + (k - 100) % NX if k >= 100 else k % NK
+def _comparable(a, e): return (_CLS[a], _CLS[e]) in (('T', 'T'), ('S', 'S'), ('S', 'T'), ('I', 'I'))
+def _lists(a, e): return _VAL[a] == _VAL[e]
+
+def render(t):
+    k = t[0]
+    if k == 's': return f'(s {t[1]})'
+    if k == 't': return f'(t {t[1]})'
+    if k == 'r': return '(r)'
+    if k == 'q': return f'(q {render(t[1])} {render(t[2])})'
+    if k == 'f': return f'(f {render(t[1])})'
+    if k == 'd': return f'(d {t[1]} {render(t[2])})'
+    return f"(c {render(t[1])} ({' '.join(map(str, t[2]))}) {render(t[3])})"
+
+def ref_run(t, x=0):
+    """reference run of a program tree (third implementation, used only to keep generated programs out of the territory of
+    KF-C07-filter-eq-raises): -> (escaping object index or None, did a filter walk meet an entry that cannot be compared
+    with the arriving exception before an entry listing it)"""
+    k = t[0]
+    if k == 's': return None, False
+    if k == 't': return _canon(t[1]), False
+    if k == 'r': return x, False
+    if k == 'q':
+        e, c = ref_run(t[1], x)
+        if e is not None or c: return e, c
+        return ref_run(t[2], x)
+    if k == 'f': return ref_run(t[1], x)
+    if k == 'd': return ref_run(t[2], x)
+    e, c = ref_run(t[1], x)
+    if e is None or c: return e, c
+    m = not t[2]
+    for a in map(_canon, t[2]):
+        if not _comparable(a, e): return e, True
+        if _lists(a, e): m = True; break
+    if not m: return e, False
+    return ref_run(t[3], e)
+
+def gen_obj_tree(rng, throws, filts, depth, size, in_handler=False):
+    if size <= 1 or depth <= 0:
+        r = rng.random()
+        if r < 0.45: return ('t', rng.choice(throws))
+        if in_handler and r < 0.65: return ('r',)
+        return ('s', rng.randrange(100))
+    r = rng.random()
+    if r < 0.28:
+        a = rng.randrange(1, size); return ('q', gen_obj_tree(rng, throws, filts, depth, a, in_handler), gen_obj_tree(rng, throws, filts, depth, size - a, in_handler))
+    if r < 0.86:
+        a = rng.randrange(1, size)
+        k = rng.choice([0, 1, 1, 2, 2, 3, 4])
+        f = [rng.choice(filts) for _ in range(k)]
+        return ('c', gen_obj_tree(rng, throws, filts, depth - 1, a, in_handler), f, gen_obj_tree(rng, throws, filts, depth - 1, size - a, True))
+    if r < 0.93: return ('f', gen_obj_tree(rng, throws, filts, depth, size - 1, in_handler))
+    return ('d', rng.choice([2, 9, 40]), gen_obj_tree(rng, throws, filts, depth, size - 1, in_handler))
+
+OBJ_POOLS = [
+    ('strings', STR_KINDS, STR_KINDS),                                   # equal-valued distinct objects; bind the thrown one
+    ('ints', INT_KINDS, INT_KINDS),
+    ('str_entries', TYPE_KINDS + STR_KINDS, STR_KINDS),                  # String entries look at Types by name ("TypeError")
+    ('mixed', TYPE_KINDS + STR_KINDS + INT_KINDS, TYPE_KINDS + STR_KINDS + INT_KINDS),   # kept only when no walk meets a clash
+]
+def gen_obj_prog(rng, i):
+    """a program over objects of several types whose reference run meets no clash (C07_any_objects: hypothesis noClash);
+    `mixed` programs may well name a Type entry and a thrown String — they are kept when that String never arrives there"""
+    name, throws, filts = OBJ_POOLS[i % len(OBJ_POOLS)]
+    for attempt in range(40):
+        t = gen_obj_tree(rng, throws, filts, rng.randrange(1, 5), rng.randrange(2, 18 if name != 'mixed' else 12))
+        if not ref_run(t)[1]: return render(t)
+    return '(c (t 100) (102) (s 1))'
+
 class C07(Spec):
     id = 'C07'; engine = 'exn'; harness = 'h_exn'; driver = 'drv_exn'
     generators = ('Exn',)
@@ -108,7 +185,9 @@ class C07(Spec):
                   'the model of try/catch/throw (depth, active flag, jump-buffer indices, the filter walk of exception_catch by index) produces '
                   'exactly the trace of a structured-exception reference semantics — throws from bodies, callees and handlers, rethrow of the bound '
                   'object — restores the depth, never aborts, hangs or jumps to a dead buffer; C07_no_undefined_jump and C07_overflow_aborts cover '
-                  'every program without those hypotheses; histories by C07_sequence_history. Outside the domain the model mirrors the code and the '
+                  'every program without those hypotheses; histories by C07_sequence_history. C07_any_objects: the same for exception objects and filter entries of type Type, String or Int '
+                  'compared through the Cmp instance of the filter entry as exception_catch does, under the decidable hypothesis noClash (no walk of the reference run meets an entry that cannot '
+                  'be compared with the arriving exception); inside that territory the code replaces the exception (KF-C07-filter-eq-raises: C07_mixed_type_filter_refuted, C07_clash_replaces_exception). Outside the domain the model mirrors the code and the '
                   '…_refuted theorems exhibit the departure (throw(NULL): handler skipped; malformed message: FormatError bound). The behaviour of the '
                   'code before fix a0ef2da (foreach walk: a repeated filter object makes exception_catch hang) is kept as an explicit OLD machine and '
                   'refuted on its witness (C07_foreach_walk_refuted / _hangs). '
@@ -117,14 +196,22 @@ class C07(Spec):
                   'against them; the machine model is tied to the real macros by running thousands of program trees on both.')
     level_note = ('Trusted: Lean kernel; axioms propext/Quot.sound/Classical.choice at most; the regex translator for Exception.c/Tuple.c/Cello.h; the '
                   'harness/driver comparison (testing); setjmp/longjmp and process exit status are modelled. Not covered: signals-to-exceptions, stack '
-                  'traces, the text of the diagnostic beyond "Uncaught", other threads (C13), exception objects on a dead stack frame.')
+                  'traces, other threads (C13), exception objects on a dead stack frame, exception objects created inside the try body, exceptions raised by '
+                  'library functions inside a try body (same code path, other frames), objects of types other than Type / String / Int. The message of a '
+                  'throw is checked by the direct oracle in the diagnostic of an uncaught exception only (no accessor exists: KF-C07-accessors-undefined); '
+                  'it is not part of the Lean state.')
     rule = ('program trees: (a) exhaustive enumeration of all trees with up to N constructor nodes over 2 exception kinds, rethrow and 5 filter '
             'lists (one with a repeated object), (b) random trees (depth<=6, size<=40, 6 kinds, filter arity 0-4 with repeated objects in about a '
-            'quarter of the filters of arity >= 2, calls, callees at dynamic depth up to 150 frames, rethrow), '
+            'quarter of the filters of arity >= 2, calls, callees at dynamic depth up to 150 frames, rethrow, exceptions raised by library functions — get on a '
+            'missing Table key, rem of an absent Array element — inside bodies and handlers), '
             '(c) lexically nested 3-level blocks inside one C function for every throw/filter choice sampled, (d) dynamic nesting to depth '
             '200/2000 plus corpus: exactly EXCEPTION_MAX_DEPTH and one more (abort), (e) chains of handlers that throw/rethrow into the enclosing '
             'block, (f) one try site re-entered recursively, (g) blocks whose filter repeats objects, asked about an exception listed before / after '
-            'the repeat / not at all. Each runs on the real macros in a forked child under alarm(); trace, end state and '
+            'the repeat / not at all, (h) programs whose thrown objects and filter entries are heap Strings (two distinct objects of equal value, one '
+            'whose text is a Type\'s name) and heap Ints next to the Type objects, generated over four pools and kept when the reference run meets no '
+            'entry that cannot be compared with the arriving exception (hypothesis noClash of C07_any_objects; mixed programs with a Type entry and '
+            'a thrown String that never meet are kept). Message formats: three shapes (plain, %$ + literal %, 320 characters), checked in the '
+            'diagnostic of every uncaught exception together with the object it names. Each runs on the real macros in a forked child under alarm(); trace, end state and '
             'depth are compared with the Lean machine and with an independent reference interpreter in C. non-trivial = the trace contains at least '
             'one handler event or the program ends fatal/abort/hang; distinct = distinct program text.')
     trusted_base = ('translate/gen.py generator Exn (regex over src/Exception.c, src/Tuple.c Tuple_Get / Tuple_Len / Tuple_Iter_Next and the try / catch_in / throw macros)',
@@ -132,8 +219,15 @@ class C07(Spec):
                     'setjmp/longjmp, fork/exit status/alarm (libc) are modelled, not verified')
     assumptions = ('single thread; no return/goto out of a try body (documented misuse)',
                    'try-nesting depth within EXCEPTION_MAX_DEPTH for the refinement theorems (beyond it: modelled and tested, exception_try aborts: C07_overflow_aborts)',
-                   'object domain (hypothesis inDomain of the theorems): exception objects and filter entries are non-NULL Type objects with distinct names (the library\'s …Error objects) '
-                   'that outlive the jump, compared by eq = identity, which cannot raise; the message format has enough arguments. Outside it (corpus/exn_domain.ops, modelled, not judged '
+                   'object domain (hypothesis inDomain of the theorems): exception objects and filter entries are non-NULL objects that outlive the jump; the message format has enough '
+                   'arguments. C07_machine_refines_reference is about the world in which every object is a Type object with a name of its own (eq = identity; C07_type_objects_instance proves it is '
+                   'that instance of C07_any_objects); C07_any_objects is about Type, String and Int objects compared the way exception_catch compares them (eq = the Cmp instance of the filter '
+                   'entry) under the explicit decidable hypothesis noClash: no filter walk of the reference run reaches an entry whose type cannot be compared with the arriving exception '
+                   '(Type entry / non-Type exception, String entry / Int exception, Int entry / non-Int exception) before an entry that lists it. Inside that territory eq raises ValueError / '
+                   'ClassError inside exception_catch and the pending exception is replaced: finding KF-C07-filter-eq-raises (C07_mixed_type_filter_refuted, C07_clash_replaces_exception, '
+                   'witness corpus/kf_c07_filter_eq_raises.ops; no generated input is in it: the generator runs its own reference interpreter and rejects such programs). '
+                   'exception_object() / exception_message() are declared and documented but defined nowhere (finding KF-C07-accessors-undefined, witness corpus/kf_c07_accessors.ops, '
+                   'theorem C07_exception_accessors_undefined over translator flags): the thrown message is observable only in the diagnostic of an uncaught exception. Outside inDomain (corpus/exn_domain.ops, modelled, not judged '
                    'by the direct oracle): throw(NULL) is consumed by a catch-all without running the handler, eq(arg, NULL) raises ValueError inside exception_catch; a message with too few '
                    'arguments makes exception_throw raise FormatError in place of the named object (mechanism of KF-C08-terminal-message)',
                    'catch filters are arbitrary lists of such objects (no distinctness hypothesis since fix a0ef2da; generated filters repeat objects; '
@@ -188,6 +282,12 @@ class C07(Spec):
             du.append('P ' + gen_dup_case(rng))
         for i in range(0, len(du), 500):
             cs.append(Case(f'dupfilter{i//500}', du[i:i+500]))
+        # (h) exception objects of several types (Strings, Ints next to the library's Type objects), no clash on the reference run
+        ob = []
+        for i in range((600 if quick else 12000) * boost):
+            ob.append('P ' + gen_obj_prog(rng, i))
+        for i in range(0, len(ob), 500):
+            cs.append(Case(f'objects{i//500}', ob[i:i+500]))
         return cs
     def nontrivial_items(self, case, c_out, m_out):
         ops = [l for l in case.lines if l and not l.startswith('#')]
@@ -204,12 +304,14 @@ class C07(Spec):
                 if '(r)' in l: acc['with_rethrow'] = acc.get('with_rethrow', 0) + 1
                 if '(d ' in l: acc['with_deep_call'] = acc.get('with_deep_call', 0) + 1
                 if '(n)' in l or '(m ' in l: acc['out_of_domain'] = acc.get('out_of_domain', 0) + 1
+                if re.search(r'[ (]10[0-6][ )]', l): acc['with_non_type_objects'] = acc.get('with_non_type_objects', 0) + 1
         for l in m_out.split('\n'):
             if l.startswith('R ') and 'nodup=false' in l: acc['with_repeated_filter_object'] = acc.get('with_repeated_filter_object', 0) + 1
+            if l.startswith('R ') and 'noclash=false' in l: acc['in_clash_territory'] = acc.get('in_clash_territory', 0) + 1
     def model_selfcheck(self, case, m_out):
         ls = m_out.split('\n')
         for i in range(len(ls) - 1):
-            # only where the hypotheses of C07_current_source hold (inDomain, nesting fits): hyp=true
+            # only where the hypotheses of C07_current_source_any_objects hold (inDomain, nesting fits, noClash): hyp=true
             if ls[i].startswith('O ') and ls[i+1].startswith('R ') and 'hyp=true' in ls[i+1]:
                 ot = ls[i].split('trace=')[1].split(' end=')[0]; rt = ls[i+1].split('trace=')[1].split(' exc=')[0]
                 oend = ls[i].split('end=')[1].split()[0]; rexc = ls[i+1].split('exc=')[1].split()[0]
